@@ -249,7 +249,7 @@ func genBadDep(t *rapid.T) BadDep {
 	a1, a2 := genArchName(t, "a1"), genArchName(t, "a2")
 	p1, p2 := rapid.SampledFrom(profileNames).Draw(t, "p1"), rapid.SampledFrom(profileNames).Draw(t, "p2")
 	class := rapid.SampledFrom([]string{"unterminated-bracket", "unterminated-paren", "unterminated-profile", "unterminated-substvar",
-		"mixed-negation", "second-version", "second-arch-list", "unknown-operator-U1", "unknown-operator-U2", "two-names", "substvar-junk", "nul-byte", "dollar-without-brace", "unknown-operator-U3", "opener-inside-clause", "nameless-restriction", "unknown-operator-U0", "misplaced-negation", "empty-clause"}).Draw(t, "class")
+		"mixed-negation", "second-version", "second-arch-list", "unknown-operator-U1", "unknown-operator-U2", "two-names", "substvar-junk", "nul-byte", "dollar-without-brace", "unknown-operator-U3", "opener-inside-clause", "nameless-restriction", "unknown-operator-U0", "misplaced-negation", "empty-clause", "separator-inside-clause"}).Draw(t, "class")
 	var tail string
 	// a valid ", rel" or " | alt" may follow every corruption: no construct of
 	// the grammar contains ',' or '|', so a closer further right belongs to a
@@ -320,6 +320,15 @@ func genBadDep(t *rapid.T) BadDep {
 			tail = name + " (" + bad + ")"
 		}
 		suffixOK = true
+	case "separator-inside-clause":
+		// a ',' or '|' ends the relation / the alternative wherever it stands: inside an open
+		// clause it leaves that clause unterminated (the closer further on belongs to nobody)
+		sep := rapid.SampledFrom([]string{",", ", ", " , ", "|", " | ", "| "}).Draw(t, "sepIn")
+		tail = rapid.SampledFrom([]string{
+			name + " [" + a1 + sep + a2 + "]", name + " [!" + a1 + sep + "!" + a2 + "]", name + " <" + p1 + sep + p2 + ">", name + " (" + op + sep + ver + ")",
+			name + " (" + op + " " + ver + sep + ver + ")", name + " [" + a1 + sep + "]", name + " <" + sep + p1 + ">", name + " [" + a1 + "] <" + p1 + sep + "!" + p2 + ">",
+		}).Draw(t, "v")
+		suffixOK = true
 	case "misplaced-negation":
 		// a '!' that is not the first character of its term negates nothing the grammar knows:
 		// <nocheck!> is not <!nocheck>, [amd64!] is not [!amd64]
@@ -387,7 +396,7 @@ func genBadDep(t *rapid.T) BadDep {
 
 var specC04Malformed = Register(&Spec[BadDep]{
 	Prop: "C04", Name: "malformed",
-	Rule: "one corruption of a valid canonical field, each its own class: closing ] ) > or } missing from a construct (at the end of input, or followed by further valid relations or alternatives whose own closers must not be borrowed); a NUL byte anywhere with more text behind it; a known operator with a third operator character glued on ('>==1'); an opener ( [ < inside an open clause of the same alternative; clauses without a package name; a '$' that is not followed by '{'; a ${substvar} followed by anything but ',' '|' or the end (a name, a second substvar, a clause); mixed negation in an arch list; a second (version) clause; a second [arch] list; a '!' behind or inside a profile or architecture name (<nocheck!>, [amd64!]); a clause with nothing in it ('(>= )', a ':' without a qualifier, '[!]', '<!>', a '!' followed by a blank); half an operator (U0: a lone '<' '>' '!' '~' '-' '+' in front of the version); an unknown operator not starting with '=' (U1: ~= != >< <> ~ ^ ...) or starting with '=' (U2: == => =<); two names separated only by blanks - optionally preceded (and where sound followed) by valid relations. Oracle: Parse returns (nil, error) and UnmarshalControl returns an error and leaves no relations in its receiver; a fixed valid field parsed right afterwards through either entry point comes out as written. Every case is non-trivial; distinct by text.",
+	Rule: "one corruption of a valid canonical field, each its own class: closing ] ) > or } missing from a construct (at the end of input, or followed by further valid relations or alternatives whose own closers must not be borrowed); a NUL byte anywhere with more text behind it; a known operator with a third operator character glued on ('>==1'); an opener ( [ < inside an open clause of the same alternative; clauses without a package name; a '$' that is not followed by '{'; a ${substvar} followed by anything but ',' '|' or the end (a name, a second substvar, a clause); mixed negation in an arch list; a second (version) clause; a second [arch] list; a ',' or '|' inside an open clause ('[amd64, i386]', '<a | b>', '(>= 1, 2)'); a '!' behind or inside a profile or architecture name (<nocheck!>, [amd64!]); a clause with nothing in it ('(>= )', a ':' without a qualifier, '[!]', '<!>', a '!' followed by a blank); half an operator (U0: a lone '<' '>' '!' '~' '-' '+' in front of the version); an unknown operator not starting with '=' (U1: ~= != >< <> ~ ^ ...) or starting with '=' (U2: == => =<); two names separated only by blanks - optionally preceded (and where sound followed) by valid relations. Oracle: Parse returns (nil, error) and UnmarshalControl returns an error and leaves no relations in its receiver; a fixed valid field parsed right afterwards through either entry point comes out as written. Every case is non-trivial; distinct by text.",
 	Check: func(c BadDep, r *Recorder) error {
 		r.Case(c.Text, true, "malformed:"+c.Class)
 		r.Sample(c)
